@@ -465,6 +465,9 @@ def mag_of_nat(n):
 
 def helper_line(c):
     op = c["op"]
+    if op == "script":
+        return "script %d %s %s" % (c["id"], c["kind"], " ".join(("%s:%s" % (st["ty"], dec_of_big(st["x"]))) if st["op"] == "int2c"
+                                                                  else "d:" + bytes(st["d"]).hex() for st in c["steps"]))
     if op == "int2c":
         return "int2c %d %s %s" % (c["id"], c["ty"], dec_of_big(c["x"]))
     if op == "c2int":
@@ -488,6 +491,9 @@ def helper_event(ev):
         if k in ev:
             ev[k] = list(bytes.fromhex(ev[k]))
     op = ev.get("op")
+    if op == "script":
+        ev["steps"] = [helper_event(st) for st in ev["steps"]]
+        return ev
     if op in ("int2c",):
         ev["back"] = big_of_dec(ev["back"])
     if op in ("c2int", "num"):
@@ -679,8 +685,8 @@ def oidapi_family(res, b, prop, tier, known):
 
 
 def check_C16(tier, seed):
-    return helper_family("C16", tier, seed, ["int", "real", "num"],
-                         "calls enumerated by TLC from spec/MC_Helpers.tla: every boundary integer of each C type through asn_<ty>2INTEGER and back; INTEGER contents (all 1-octet strings, 2-octet boundary set / all in thorough, sign-padded forms up to 10 octets of every edge value) through asn_INTEGER2<ty>; doubles for a set of (thorough: all 2048) biased exponents x 7 mantissa patterns x 2 signs plus specials and subnormals through asn_double2REAL and back; numerals around every overflow boundary, with leading zeros, through the four strto*_lim parsers")
+    return helper_family("C16", tier, seed, ["int", "real", "num", "reuse"],
+                         "every ordered pair (thorough: triple) of conversions into ONE INTEGER_t / REAL_t object over ten values of different lengths, signs, C types and special REALs (contents and read-back must not depend on what the object held); calls enumerated by TLC from spec/MC_Helpers.tla: every boundary integer of each C type through asn_<ty>2INTEGER and back; INTEGER contents (all 1-octet strings, 2-octet boundary set / all in thorough, sign-padded forms up to 10 octets of every edge value) through asn_INTEGER2<ty>; doubles for a set of (thorough: all 2048) biased exponents x 7 mantissa patterns x 2 signs plus specials and subnormals through asn_double2REAL and back; numerals around every overflow boundary, with leading zeros, through the four strto*_lim parsers")
 
 
 def check_C17(tier, seed):
